@@ -48,7 +48,7 @@ def instances(tier):
         out.append({"phase": "backoff", "gen": g})
         out.append({"phase": "initialised", "gen": g, "close_latency": 0.05})      # closing the transport takes 50 ms
         out.append({"phase": "connecting", "gen": g, "quick_reinit": True})        # init() again while the old connect is still in flight
-        for sc in ("down_queue", "connecting", "write_suspended", "backoff"):
+        for sc in ("down_queue", "connecting", "write_suspended", "write_suspended_lost", "backoff"):
             out.append({"phase": "sock_close", "gen": g, "scenario": sc})
         for st in range(6):
             out.append({"phase": "race", "gen": g, "step": st})
@@ -306,12 +306,12 @@ def _sock_close(ctx, p):
     g = Gen(p["gen"])
     sc = p["scenario"]
     entry = catalog.catalog(g)[3]
-    mode = {"accept": sc in ("connecting", "write_suspended", "backoff")}
+    mode = {"accept": sc in ("connecting", "write_suspended", "write_suspended_lost", "backoff")}
     lat = 3.0 if sc == "connecting" else 0
     ts = ctx.real("ts", 0, 7) if sc != "backoff" else ctx.real("ts", 1, 8)
     with Rig(ctx, g) as rig:
         rig.net.on_connect = lambda net, n: (("accept", lat) if mode["accept"] else ("refuse",))
-        if sc == "write_suspended":
+        if sc in ("write_suspended", "write_suspended_lost"):
             rig.net.on_drain = lambda conn, n: 4.0        # back-pressure: every drain() takes 4 s
         res = {}
 
@@ -342,6 +342,12 @@ def _sock_close(ctx, p):
             rig.net.frozen = True
 
         rig.loop.vt_call_at(ts, lambda: rig.spawn(do_close()))
+        if sc == "write_suspended_lost":
+            # the link breaks shortly after close(): the write that was still waiting on the transport fails with an error
+            def break_link():
+                for c in rig.net.conns:
+                    c.reset()
+            rig.loop.vt_call_at(ts + 0.125, break_link)
         rig.loop.vt_run(ts + 1.0)
         detail = {"scenario": sc}
         ctx.check("at" in done, "nothing_after_shutdown", detail=dict(detail, why="close() did not return within 1 s"))
